@@ -530,3 +530,52 @@ def e_local_list_faults(k: int) -> bool:
         if not ok:
             _say(msg)
         return ok
+
+
+# --------------------------------------------------------------------------- B2: a fault tied to the upload URL (C12_f)
+def b2_pod_case(op, size_i, dead_n, after, spelling):
+    """The first `dead_n` upload URLs B2 hands out name pods that stop answering (the connection breaks after `after` pieces
+    of the body, every time); b2_get_upload_url keeps handing out healthy pods afterwards. That is `dead_n` transient faults,
+    inside the retry budget: the upload must succeed with the exact bytes, the payload re-read from its start."""
+    size = [0, 5, 3 * CHUNK + 2, 20 * CHUNK][size_i]
+    data = bytes((i * 11 + 1) % 251 for i in range(size))
+    name = 'data/ab/cd-pod'
+    svc = fakes.FakeB2(page=2, restricted=spelling >= 2)
+    be = fakes.b2_backend(svc, by_id=spelling % 2 == 1)
+    loop = rt.MiniLoop(budget=3_000_000)
+    raw = CountingStream(data)
+
+    async def go():
+        await be.exists('warm-up')
+        svc.dead_pod = lambda url: any(url.endswith(f'/pod{i}') for i in range(1, dead_n + 1))
+        svc.dead_after = after
+        if op == 0:
+            await be.upload(name, data)
+        else:
+            await be.upload_stream(name, raw, len(data), CHUNK)
+    try:
+        loop.run_until_complete(go())
+    except fakes.RequestStorm:
+        return False, 'b2: request storm', svc.dead_hits
+    except Exception as e:
+        return False, (f"b2 {['upload', 'upload_stream'][op]}: the first {dead_n} upload pod(s) died after {after} body piece(s) and the operation failed with {e!r} "
+                       f'after {svc.dead_hits} request(s) to dead pods, although new upload URLs name healthy pods'), svc.dead_hits
+    if svc.short_bodies:
+        return False, f'b2: a request declared {svc.short_bodies[0][2]} bytes but sent {svc.short_bodies[0][1]}', svc.dead_hits
+    if svc.live().get(name) != data:
+        return False, 'b2: stored object differs from the payload', svc.dead_hits
+    return True, '', svc.dead_hits
+
+
+def e_b2_pod(k: int) -> bool:
+    """
+    pre: 0 <= k < 2 * 4 * 3 * 3 * 2
+    post: _
+    """
+    op, size_i, dn, after, sp = digits(k, [2, 4, 3, 3, 2])
+    with NoTracing():
+        ok, msg, hits = b2_pod_case(op, size_i, [1, 2, 3][dn], after, sp)
+        tick('e_b2_pod', [op, size_i, dn, after, sp, hits])
+        if not ok:
+            _say(msg)
+        return ok
